@@ -416,9 +416,43 @@ STATES = ("SHUTDOWN", "CLOSED", "LISTEN", "CONNECT", "ESTABLISHED", "DISCONNECT"
 WAIT_ACTS = ("N", "T", "S", "QI", "QDISC", "QCONNECT", "QCC", "QDM", "QUI", "D", "R")
 
 
+_CLOSE_CLEARS = []
+
+
+def close_clears_recv():
+    """which tree is under test: does DataLinkConnection.close() of an established, bound connection discard unread
+    data before it waits for the DM (fixes/C05/0002)?  Probed on the real object: with an I PDU unread the repaired
+    close() reaches the wait on recv_ready, the earlier code takes the I PDU for the answer and does not wait.  The
+    model has both variants (World.closeClearsRecv); every theorem is proved for both."""
+    if not _CLOSE_CLEARS:
+        import nfc.llcp
+        from sims import term_llc as T
+        world = T.World()
+        T.install_double(world)
+        try:
+            llc = T.make_llc()
+            tco = llc.socket(nfc.llcp.DATA_LINK_CONNECTION)
+            T.name_conditions(tco)
+            llc.bind(tco)
+            T.establish(tco)
+            tco.recv_queue.append(T.make_pdu("I", tco))
+            world.begin(llc, tco, [])
+            try:
+                tco.close()
+            except T.Hang:
+                pass
+            finally:
+                world.end()
+            _CLOSE_CLEARS.append(any(e.startswith("Wrecv_ready") for e in world.events))
+        finally:
+            T.uninstall()
+    return _CLOSE_CLEARS[0]
+
+
 def init_line(st):
     return ("k=%(k)s st=%(st)s b=%(b)d rq=%(rq)s sq=%(sq)s sb=1 rb=%(rb)d sm=%(sm)d sw=%(sw)d sc=%(sc)d sa=%(sa)d "
-            "ak=%(ak)d rc=%(rc)d rw=%(rw)d reg=%(reg)d alive=%(alive)d oth=0 term=0 sd=1 res=%(res)d pre=%(pre)d" % st)
+            "ak=%(ak)d rc=%(rc)d rw=%(rw)d reg=%(reg)d alive=%(alive)d oth=0 term=0 sd=1 res=%(res)d pre=%(pre)d" % st
+            + " ccr=%d" % close_clears_recv())
 
 
 def base_state(k, st, variant, rq=(), sq=(), win=(1, 0, 0), ak=0, rc=0, res=0, pre=0):
@@ -998,6 +1032,8 @@ def run(ck):
         phases.append("%s %.1fs" % (name, time.time() - t0))
         t0 = time.time()
     ck.lean("NfcVerif.Props.C09", THEOREMS)
+    ck.notes.append("tree under test: DataLinkConnection.close() %s unread data before it waits for the DM (probed; model variant "
+                    "closeClearsRecv=%s)" % (("discards", "true") if close_clears_recv() else ("does not discard", "false")))
     if ck.thorough:
         ck.leanchecker(["NfcVerif.Props.C09"])
     model = Model("drv_c09")
